@@ -413,6 +413,21 @@ example (orc : σ) (f : SimFault) :
     ⟨by decide +kernel, by decide +kernel, by decide +kernel, by decide +kernel⟩
     (by decide) (by decide) rfl (by intro p hp; cases hp) rfl (by decide) (by decide) f
 
+/-- the same run under the all-zero oracle, evaluated by the kernel: it runs into the iteration
+    cap after 50 iterations, having executed 9 paddings and 11 blocking actions (10 of them
+    expired), delivered 2 padding packets, queued 10 aggregate delays and accumulated 3 ms of
+    aggregate delay on the client side -/
+def exTotalRun : SimOut Unit :=
+  simAdvanced exOracle 0 [exMachine] [exMachine] (parseTrace exTrace 10000000) exTotalArgs ()
+
+example : exTotalRun.stop = .maxIter ∧ exTotalRun.stream.length = 50 ∧
+    (exTotalRun.stream.filter (fun r => match r.ev.event with | .paddingSent _ => true | _ => false)).length = 9 ∧
+    (exTotalRun.stream.filter (fun r => match r.ev.event with | .blockingBegin _ => true | _ => false)).length = 11 ∧
+    (exTotalRun.stream.filter (fun r => r.ev.event == .blockingEnd)).length = 10 ∧
+    (exTotalRun.stream.filter (fun r => r.ev.event == .paddingRecv)).length = 2 ∧
+    (match exTotalRun.final with | some st => st.net.ghost.aggPushed | none => 0) = 10 ∧
+    (match exTotalRun.final with | some st => st.net.clientAgg | none => 0) = 3000000 := by decide +kernel
+
 /-! Non-vacuity: a concrete two-packet run without machines (state built directly, so that the
     kernel can evaluate it): 7 iterations, 3 of them client events; the stream is the same for
     both filter settings. -/
